@@ -18,9 +18,15 @@ THEOREMS = ["binAssign_var_correct", "binAssign_fixed_correct", "assign_eq_binOf
             "countAt_groupCells", "totalCount_groupCells", "mem_groupCells_keys", "countAt_groupFirst",
             "sumAt_groupFirst", "groupFirst_keysNodup", "groupFirst_perm_groupCells", "aggregateRecords_sort_irrelevant",
             "groupFirst_keys",
-            "pixels_count_once", "pixels_reflect_upper", "tableOK_of_valid", "rows_flatMap_eq", "tabix_correct"]
+            "pixels_count_once", "pixels_reflect_upper", "tableOK_of_valid", "rows_flatMap_eq", "tabix_correct",
+            "hiclib_chunks_cover", "hiclib_eq_spec", "hiclib_chunksize_independent", "hiclib_rejects_lower",
+            "hiclib_rejects_unsorted", "hiclib_drops_unlisted", "hiclib_drops_unlisted_full", "hiclib_rejects_outside",
+            "hiclib_rejects_outside_full", "hiclib_rowlabels_irrelevant", "hiclibLegacy_accepts_outside",
+            "hiclibLegacy_counts_unlisted", "hiclibLegacy_rowlabels_matter", "aggLoop_eq_seq", "parts_sep",
+            "groupCells_blocks", "absBin_eq_assignVar", "runs_nodup_iff", "procChunk_rejects", "binEnd_total"]
 LEVELS = {"records_top": "top", "records_atlength": "top", "records_sequence": "top", "records_unit": "unit", "pixels_top": "top", "pixels_unit": "unit",
-          "aggregate_unit": "unit", "cli_pairs": "top", "cli_load": "top", "cli_tabix": "top", "constants": "unit"}
+          "aggregate_unit": "unit", "cli_pairs": "top", "cli_load": "top", "cli_tabix": "top", "constants": "unit",
+          "hiclib": "top", "hiclib_outside": "top", "hiclib_rowlabels": "top", "hiclib_chunks": "unit"}
 DESCRIBE = {
     "records_top": "sanitize_records(bins, schema=pairs|bg2, ...)(chunk) then aggregate_records()(…), chunks merged, vs Lean "
                    "L0 `specCounts` (binOf, one unit per retained record): ok/rejected status, number of retained rows, pixel table",
@@ -41,6 +47,19 @@ DESCRIBE = {
                 "ids outside the table and duplicate pixels within a chunk are rejected as `create` documents)",
     "cli_tabix": "`cooler cload tabix` on a bgzipped, pysam.tabix_index-ed file of in-range upper-triangular records vs Lean L0 `specCounts`",
     "constants": "cooler.create._ingest.SANITIZE_PRESETS vs the defaults the model's options stand for",
+    "hiclib": "list(HDF5Aggregator(h5pairs, chromsizes, bins, chunksize)) on an HDF5 pairs group built with h5py, chunks concatenated, "
+              "for EVERY listed chunksize, vs Lean L0 `hiclibSpec` (= `specCounts`: one unit per read pair in the pixel of its two "
+              "anchors; a lower-triangle pair or an id heading two runs of chrms1 is a ValueError); the same file through "
+              "create_cooler(..., ordered=True) and through `cooler cload hiclib` (CliRunner), pixel table, nnz and sum read back",
+    "hiclib_outside": "the comparison of `hiclib` on files holding a cut outside its chromosome (-1, L, L+1) or a chromosome id that is "
+                      "not in the table (-1, n, n+1, -(n+1), -(n+2)): the specification rejects / drops, and so must the loader "
+                      "(fixes D29, D30; theorems hiclib_rejects_outside, hiclib_drops_unlisted)",
+    "hiclib_rowlabels": "the comparison of `hiclib` with the SAME bin table handed to HDF5Aggregator as a frame whose rows are labelled "
+                        "differently (restarting per chromosome, reversed, offset, all equal): labels are presentation, the specification "
+                        "does not see them and neither may the loader (fix D31; theorem hiclib_rowlabels_irrelevant)",
+    "hiclib_chunks": "the (lo, hi) of every chunk the REAL `aggregate` loop loads (observed by wrapping `_load_chunk`) vs the Lean contract "
+                     "`chunksOK`: consecutive non-empty ranges covering the records exactly, no bin1 shared by two chunks "
+                     "(what `hiclib_eq_spec` needs of the loop; the boundaries themselves are a free choice)",
 }
 RULE = ("bin tables: uniform (exact and short last bin), variable width, longer last bin, one-bin chromosomes, 2-3 chromosomes with "
         "length <= 8 (quick) / <= 12 (thorough), plus seeded random segmentations, plus (thorough) EVERY segmentation of two "
@@ -51,16 +70,35 @@ RULE = ("bin tables: uniform (exact and short last bin), variable width, longer 
         "pairs and bg2 presets; the chromosome columns of the record frames in several equally valid forms (object, str, "
         "categorical with categories in table / sorted / reversed / rotated order, with unused extra categories, with only the "
         "names that occur); call sequences over tables sharing chromosome names and lengths; pre-binned records likewise over ids -1..n+1; a sample end to end through the CLI; "
-        "non-trivial = a non-empty batch of records on a table with >= 2 bins; distinct by canonical JSON")
+        "non-trivial = a non-empty batch of records on a table with >= 2 bins; distinct by canonical JSON; "
+        "hiclib: the tables above plus three-chromosome tables with a one-bin chromosome; read pairs = EVERY upper-triangular pair of "
+        "edge anchors (every bin start, every bin end - 1, hence 0 and L-1) of the table, the same restricted to one first chromosome "
+        "(chromosomes without records), seeded multisets of <= 8 pairs with duplicates, each under EVERY chunksize 1..n+1; seeded files "
+        "of 30-160 pairs on random segmentations under chunksizes 1, 2, n-1, n, n+1 and three random ones; int32/uint16 datasets; "
+        "each well-formed file with one pair mirrored into the lower triangle at the first / a middle / the last position; files whose "
+        "chrms1 column has an id in two runs; a slice through create_cooler and the command line; hiclib_outside: each of these tables "
+        "with one pair whose first / second cut is L, L+1 or -1, or whose first / second id is -1, n, n+1, -(n+1), -(n+2), alone and "
+        "inside a well-formed file; hiclib_rowlabels: the well-formed files with the bin-table frame's rows relabelled (restart per "
+        "chromosome, reversed, offset, constant); the main hiclib checks hand over pandas' default row labels, as the command line does")
 EXHAUSTIVE = {"quick": True, "thorough": True}
 TRUSTED = ["pandas Categorical codes (unknown -> -1), boolean masking, groupby(...).aggregate (sorted keys / order of appearance), "
            "sort_values (a sorted permutation), read_csv(usecols=, names=) and numpy searchsorted/floor division are primitives of the model",
            "pysam/tabix fetch(chrom, start, end) returns the records whose position lies in the zero-based half-open interval",
            "`create`'s treatment of the sanitised stream (merge of chunks = per-pixel sums, boundscheck, dupcheck) belongs to C06/C13 and is "
-           "used here only to read the CLI's result back"]
+           "used here only to read the CLI's result back",
+           "hiclib: h5py dataset indexing (`ds[i]`, `ds[lo:hi]`), `bisect.bisect_left` on a sorted dataset (= lo + number of cuts below "
+           "the probe), `rlencode` (maximal runs), numpy fancy indexing of the chrom_abspos / chrom_binoffset tables (negative ids wrap "
+           "around, ids past the end raise IndexError), `searchsorted(side='right')`, float `floor(cut / binsize)` = integer floor "
+           "division, and `groupby([bin1_id, bin2_id]).count()` (sorted keys, group sizes) are primitives of the model"]
 ASSUMPTIONS = ["bin tables are valid segmentations (validSegmentationB evaluated by Lean on every table used); chromosome ids in records "
                "are `some c` only for chromosomes of the table", "positions and bin ids are exact integers (no int64 overflow)",
-               "tabix check: in-range, upper-triangular files only (the aggregator neither validates nor mirrors; see DESIGN C05 Partial)"]
+               "tabix check: in-range, upper-triangular files only (the aggregator neither validates nor mirrors; see DESIGN C05 Partial)",
+               "hiclib: a record whose first side is on a table chromosome at a cut OUTSIDE it and whose second side is on an unlisted id "
+               "is rejected by the loader (first cuts are validated before anything is dropped) where `specCounts` would drop it: the "
+               "property does not fix this input, it is not generated (Lean: `ListedOK.first` excludes it, an `example` shows it)",
+               "hiclib: chunksize >= 1; every chromosome of the chromsizes table has at least one bin; the theorems take the file sorted by "
+               "(chrms1, cuts1) (the loader's documented precondition) — files sorted only within chromosome blocks, or with unsorted cuts "
+               "inside a chromosome, are outside the theorems and are not generated"]
 CHUNK = 2
 
 TRILS = ["reflect", "drop", "raise", None]
@@ -685,10 +723,221 @@ def _cli_tabix(case):
                 os.unlink(p)
 
 
+
+# ---------------------------------------------------------------------------------------------
+# HDF5Aggregator (`cooler cload hiclib`)
+# ---------------------------------------------------------------------------------------------
+
+_HIC_N = itertools.count()
+
+
+HIC_LABEL_FORMS = ("range", "restart", "reversed", "offset", "constant")
+
+
+def _hic_tables(bins, n, labels="range"):
+    """bin table frame (chromosome column categorical over ALL n names) and the chromsizes Series the CLI derives from it.
+    `labels`: how the ROWS of the frame are labelled — pandas' default 0..n-1 (what `parse_bins` gives the command line), restarting
+    at 0 in every chromosome (pd.concat of per-chromosome frames), reversed, offset by 100, all equal; same table every time"""
+    bdf = gen.bins_df(bins, nchroms=n).reset_index(drop=True)
+    nb = len(bdf)
+    if labels == "restart":
+        lab, seen = [], {}
+        for b in bins:
+            lab.append(seen.get(b[0], 0))
+            seen[b[0]] = seen.get(b[0], 0) + 1
+        bdf.index = pd.Index(lab, dtype=np.int64)
+    elif labels == "reversed":
+        bdf.index = pd.Index(range(nb - 1, -1, -1), dtype=np.int64)
+    elif labels == "offset":
+        bdf.index = pd.RangeIndex(100, 100 + nb)
+    elif labels == "constant":
+        bdf.index = pd.Index([7] * nb, dtype=np.int64)
+    elif labels != "range":
+        raise AssertionError(f"unknown row label form {labels!r}")
+    sizes = {}
+    for c, _, e in bins:
+        sizes[c] = max(sizes.get(c, 0), e)
+    chromsizes = pd.Series({gen.chromname(c): sizes.get(c, 0) for c in range(n)}, dtype=np.int64)
+    return bdf, chromsizes
+
+
+def _hic_h5(recs, path=None, dtype=np.int64):
+    """hiclib-style pairs group: four equal-length integer datasets; in memory unless a path is given"""
+    import h5py
+    if path is None:
+        f = h5py.File(f"c05hic-{os.getpid()}-{next(_HIC_N)}.h5", "w", driver="core", backing_store=False)
+    else:
+        f = h5py.File(path, "w")
+    for k, i in (("chrms1", 0), ("cuts1", 1), ("chrms2", 2), ("cuts2", 3)):
+        f.create_dataset(k, data=np.array([r[i] for r in recs], dtype=dtype))
+    return f
+
+
+def _hic_cells(chunk):
+    b1, b2, ct = chunk["bin1_id"], chunk["bin2_id"], chunk["count"]
+    if not (len(b1) == len(b2) == len(ct)):
+        raise ValueError("chunk columns of different lengths")
+    return [[int(b1[i]), int(b2[i]), int(ct[i]), 0] for i in range(len(b1))]
+
+
+def _hic_run(bins, n, recs, cs, dtype=np.int64, labels="range"):
+    """list(HDF5Aggregator(h5, chromsizes, bins, chunksize)) with the (lo, hi) of every chunk -> ('ok', [[lo, hi, cells]]) | ('err', class)"""
+    from cooler.create import HDF5Aggregator
+    bdf, chromsizes = _hic_tables(bins, n, labels)
+    f = _hic_h5(recs, dtype=dtype)
+    try:
+        bounds = []
+
+        def go():
+            agg = HDF5Aggregator(f, chromsizes, bdf, cs)
+            orig = agg._load_chunk
+
+            def spy(lo, hi):
+                bounds.append((int(lo), int(hi)))
+                return orig(lo, hi)
+            agg._load_chunk = spy
+            return [ch for ch in agg]
+        st, out = guarded(go)
+        if st == "err":
+            return st, out
+        if len(bounds) != len(out):
+            return "ok", [[-1, -1, impl(_hic_cells, ch)] for ch in out]   # the chunks did not come from _load_chunk: no boundaries to report
+        return "ok", [[lo, hi, impl(_hic_cells, ch)] for (lo, hi), ch in zip(bounds, out)]
+    finally:
+        f.close()
+
+
+def _hic_create(bins, n, recs, cs, how, bins_how="bed", labels="range"):
+    """the same file through `create_cooler(..., ordered=True)` (how='create') or `cooler cload hiclib` (how='cli');
+    -> ('ok', cells, info) | ('err', class, None)"""
+    from cooler.create import HDF5Aggregator
+    d = gen.tmpdir()
+    tag = f"c05h-{os.getpid()}-{next(_HIC_N)}"
+    out = os.path.join(d, f"{tag}.cool")
+    tmp = [out]
+    try:
+        if how == "create":
+            bdf, chromsizes = _hic_tables(bins, n, labels)
+            f = _hic_h5(recs)
+            try:
+                st, e = guarded(lambda: cooler.create_cooler(out, bdf, HDF5Aggregator(f, chromsizes, bdf, cs), ordered=True))
+            finally:
+                f.close()
+        else:
+            barg, t2 = _bins_arg(d, tag, bins, bins_how)
+            tmp += t2
+            pp = os.path.join(d, f"{tag}.h5")
+            tmp.append(pp)
+            _hic_h5(recs, path=pp).close()
+            st, e = _invoke(["cload", "hiclib", "--chunksize", str(cs), barg, pp, out])
+        if st == "err":
+            return "err", e, None
+        cells, info = impl(_read_pixels, out)
+        return "ok", cells, info
+    finally:
+        for p in tmp:
+            if os.path.exists(p):
+                os.unlink(p)
+
+
+def _hic_judge(got, want, class_matters):
+    if ("ok" in got) != ("ok" in want):
+        return "accepted/rejected status differs from the specification"
+    if "ok" in got:
+        if got["ok"] != want["ok"]:
+            return "pixels differ: a read pair is not counted once in the pixel containing its two anchors"
+        return None
+    if class_matters and got["err"] != want["err"]:
+        return "rejected with a different error class than documented"
+    return None
+
+
+def _hiclib(case):
+    bins, recs, css = case["bins"], case["recs"], case["chunksizes"]
+    n = case.get("nchroms", _nchroms(bins))
+    form = case.get("rowlabels", "range")
+    ans = drv().ask("C05.hiclib", bins=bins, nchroms=n, recs=recs, chunksizes=css)
+    if not ans["valid"]:
+        raise AssertionError("generator produced an invalid segmentation")
+    wellformed = ans["sorted"] and ans["good"]
+    want = ans["l0"]
+    class_matters = False
+    if wellformed and not ans["upper"]:
+        # theorem hiclib_rejects_lower: ValueError in the code, rejected by the specification
+        assert "err" in want, "specification accepts a lower-triangle record"
+        want, class_matters = {"err": "ValueError"}, True
+    if not ans["blocksorted"]:
+        # sorted input is the loader's documented precondition; theorem hiclib_rejects_unsorted
+        want, class_matters = {"err": "ValueError"}, True
+    for run in ans["runs"]:
+        if (wellformed or not ans["blocksorted"]) and run["chunksize"] >= 1:
+            assert run["l1_flat"] == want, "L1 != L0 on well-formed input: theorem hiclib_eq_spec / hiclib_rejects_* contradicted"
+    if wellformed and ans["upper"]:
+        assert sum(c[2] for c in want["ok"]) == len(recs), "sum of the specification's counts != number of records"
+    if ans["sorted"] and not class_matters:
+        # theorems hiclib_rejects_outside_full / hiclib_drops_unlisted_full: the model rejects what the specification rejects and
+        # otherwise equals it (the one input they exclude — first cut outside AND second id unlisted — is not generated)
+        for run in ans["runs"]:
+            l1 = run["l1_flat"]
+            assert ("ok" in l1) == ("ok" in want) and ("err" in l1 or l1 == want), "L1 != L0 on a sorted file: theorem contradicted"
+    nchunks = 0
+    for run in ans["runs"]:
+        cs = run["chunksize"]
+        st, out = _hic_run(bins, n, recs, cs, np.dtype(case.get("dtype", "int64")), form)
+        got = {"ok": [c for ch in out for c in ch[2]]} if st == "ok" else {"err": out}
+        bad = _hic_judge(got, want, class_matters)
+        if bad is None and st == "ok" and sum(c[2] for c in got["ok"]) != sum(c[2] for c in want["ok"]):
+            bad = "sum of counts != number of retained records"
+        if bad:
+            return {"mismatch": True, "chunksize": cs, "through": "HDF5Aggregator", "impl": got, "spec": want, "note": bad,
+                    "model": run["l1_flat"]}
+        elif st == "ok":
+            nchunks += len(out)
+    # the same file through create_cooler / the command line, read back
+    for how, cs in case.get("via", []):
+        st, a, info = _hic_create(bins, n, recs, cs, how, case.get("bins_how", "bed"), form)
+        got = {"ok": a} if st == "ok" else {"err": a}
+        bad = _hic_judge(got, want, False)
+        if bad is None and st == "ok" and (info["nnz"] != len(want["ok"]) or info["sum"] != sum(c[2] for c in want["ok"])):
+            bad = "nnz/sum attributes differ from the number of pixels / read pairs"
+        if bad:
+            return {"mismatch": True, "chunksize": cs, "through": how, "impl": got, "spec": want, "note": bad}
+    return {"stats": {"runs": len(css), "chunks": nchunks, "records": len(recs) * len(css),
+                      "rejected": int("err" in want), "through_create": sum(1 for h, _ in case.get("via", []) if h == "create"),
+                      "through_cli": sum(1 for h, _ in case.get("via", []) if h == "cli")}}
+
+
+def _hiclib_chunks(case):
+    """contract of the chunk boundaries on the boundaries the REAL loop used (obtained by wrapping `_load_chunk`)"""
+    bins, recs, css = case["bins"], case["recs"], case["chunksizes"]
+    n = case.get("nchroms", _nchroms(bins))
+    runs = []
+    for cs in css:
+        st, out = _hic_run(bins, n, recs, cs)
+        if st == "err":
+            return {"mismatch": True, "chunksize": cs, "impl": {"err": out}, "note": "well-formed input rejected"}
+        runs.append({"chunksize": cs, "bounds": [[ch[0], ch[1]] for ch in out]})
+    if any(b[0] < 0 for r in runs for b in r["bounds"]):
+        return {"mismatch": True, "note": "chunks are no longer produced through _load_chunk(lo, hi): no boundaries to check", "runs": runs[:1]}
+    ans = drv().ask("C05.hiclib_chunks", bins=bins, nchroms=n, recs=recs, runs=runs)
+    if not (ans["valid"] and ans["wellformed"]):
+        raise AssertionError("hiclib_chunks needs a valid table and sorted, in-range, upper-triangular records")
+    same = 0
+    for r, mine in zip(ans["runs"], runs):
+        assert "ok" in r["model"], "model rejects well-formed input: theorem hiclib_chunks_cover contradicted"
+        if not r["ok"]:
+            return {"mismatch": True, "chunksize": r["chunksize"], "impl_bounds": mine["bounds"], "model_bounds": r["model"]["ok"],
+                    "covers_exactly": r["chain"], "no_bin1_split": r["sep"],
+                    "note": "chunk boundaries " + ("do not tile the records exactly" if not r["chain"] else "split a bin1 between two chunks")}
+        same += int(r["model"]["ok"] == mine["bounds"])
+    return {"stats": {"runs": len(runs), "same_as_model": same}}
+
+
 CHECKS = {"records_top": _records_top, "records_atlength": _records_atlength, "records_sequence": _records_sequence,
           "records_unit": _records_unit, "pixels_top": _pixels_top, "pixels_unit": _pixels_unit,
           "aggregate_unit": _aggregate_unit, "cli_pairs": _cli_pairs, "cli_load": _cli_load, "cli_tabix": _cli_tabix,
-          "constants": _constants}
+          "constants": _constants, "hiclib": _hiclib, "hiclib_outside": _hiclib, "hiclib_rowlabels": _hiclib,
+          "hiclib_chunks": _hiclib_chunks}
 
 
 # ---------------------------------------------------------------------------------------------
@@ -1006,7 +1255,158 @@ def cases(tier, rng):
                 c2col, p2col = rng.choice([(4, 5), (4, 5), (3, 4), (5, 6), (4, 6), (7, 3)])
                 yield "cli_tabix", {"bins": bins, "records": recs, "zero_based": zero, "c2": c2col, "p2": p2col,
                                     "max_split": rng.choice([1, 2, 3]), "kind": f"tabix:{label}"}
+    yield from hiclib_cases(tier, rng)
     yield from late
+    yield from hiclib_outside_cases(tier, rng)
+    yield from hiclib_rowlabels_cases(tier, rng)
+
+
+
+# ---- HDF5Aggregator -----------------------------------------------------------------------------------
+
+def _hic_extra_tables():
+    return [("hic-3chrom-onebin", gen.chrom_bins(0, [2, 2, 1]) + gen.chrom_bins(1, [3]) + gen.chrom_bins(2, [2, 1])),
+            ("hic-3chrom-variable", gen.chrom_bins(0, [1, 3, 2]) + gen.chrom_bins(1, [7]) + gen.chrom_bins(2, [2, 1]))]
+
+
+def _hic_anchors(bins):
+    """edge anchors: every bin start and every bin end - 1 (hence 0 and L-1) of every chromosome"""
+    out = []
+    for c in range(len(_sizes(bins))):
+        edges, _ = _edge_positions(bins, c)
+        out += [(c, p) for p in edges]
+    return out
+
+
+def _hic_pairs(bins, first=None):
+    """every upper-triangular pair of edge anchors, sorted by (chrms1, cuts1); `first`: only these first chromosomes"""
+    anc = _hic_anchors(bins)
+    return sorted([a[0], a[1], b[0], b[1]] for a in anc for b in anc if a <= b and (first is None or a[0] in first))
+
+
+def _hic_chunks_of(css, k):
+    return [css[i:i + k] for i in range(0, len(css), k)]
+
+
+def _hic_random(rng, bins, nrec, edge=0.6):
+    """a well-formed file: nrec upper-triangular pairs, cuts biased to bin edges, duplicates likely"""
+    L = _sizes(bins)
+    recs = []
+    for _ in range(nrec):
+        def side():
+            c = rng.randrange(len(L))
+            e, _ = _edge_positions(bins, c)
+            return (c, rng.choice(e) if rng.random() < edge else rng.randrange(L[c]))
+        a, b = side(), side()
+        if rng.random() < 0.2:
+            b = a
+        if a > b:
+            a, b = b, a
+        recs.append([a[0], a[1], b[0], b[1]])
+    recs.sort(key=lambda r: (r[0], r[1]))
+    return recs
+
+
+def hiclib_cases(tier, rng):
+    thorough = tier == "thorough"
+    # corpus: the non-vacuity examples of Props/C05Hiclib.lean, every chunksize, every route
+    ex_recs = [[0, 0, 0, 0], [0, 1, 0, 4], [0, 1, 2, 2], [0, 2, 0, 3], [0, 3, 0, 3], [0, 3, 2, 0], [0, 4, 0, 4], [0, 4, 2, 2],
+               [2, 0, 2, 1], [2, 2, 2, 2]]
+    for label, bins, how in (("exFixed", gen.chrom_bins(0, [2, 2, 1]) + gen.chrom_bins(1, [2]) + gen.chrom_bins(2, [2, 1]), 2),
+                             ("exVar", gen.chrom_bins(0, [1, 3, 2]) + gen.chrom_bins(1, [7]) + gen.chrom_bins(2, [2, 1]), "bed")):
+        css = list(range(1, len(ex_recs) + 2))
+        yield "hiclib", {"bins": bins, "recs": ex_recs, "chunksizes": css, "bins_how": how, "kind": f"hic-corpus:{label}",
+                         "via": [("create", 1), ("create", 4), ("cli", 1), ("cli", 2), ("cli", 100)]}
+        yield "hiclib_chunks", {"bins": bins, "recs": ex_recs, "chunksizes": css, "kind": f"hic-corpus:{label}"}
+    tabs = tables(tier, rng) + _hic_extra_tables()
+    uniform = {"uniform-short-last": 2, "uniform-exact-3chrom": 2, "uniform-width1": 1, "uniform-3": 3,
+               "uniform-4-3chrom": 4, "uniform-5": 5, "hic-3chrom-onebin": None}
+    for ti, (label, bins) in enumerate(tabs):
+        nch = len(_sizes(bins))
+        files = [("all", _hic_pairs(bins))] + [(f"only-c{c}", _hic_pairs(bins, first={c})) for c in sorted({0, nch - 1})]
+        files.append(("empty", []))
+        for fl, recs in files:
+            every = list(range(1, len(recs) + 2))
+            for k, css in enumerate(_hic_chunks_of(every, 10)):
+                via = []
+                if k == 0:
+                    via = [("create", 1), ("create", 3), ("create", len(recs) + 1), ("cli", 2 if ti % 2 else 5)]
+                yield "hiclib", {"bins": bins, "recs": recs, "chunksizes": css, "via": via, "kind": f"hic-edges:{label}",
+                                 "bins_how": (uniform.get(label) if ti % 2 else None) or "bed"}
+                if recs:
+                    yield "hiclib_chunks", {"bins": bins, "recs": recs, "chunksizes": css, "kind": f"hic-edges:{label}"}
+        # other integer dtypes of the datasets (hiclib stores int8 chromosome ids and int32/int64 cuts)
+        recs = _hic_pairs(bins)
+        for dt in ("int32", "uint16"):
+            yield "hiclib", {"bins": bins, "recs": recs, "chunksizes": [1, 3, len(recs)], "dtype": dt, "kind": f"hic-dtype:{label}"}
+        # a lower-triangle pair at the first / a middle / the last position of a well-formed file
+        anc = _hic_anchors(bins)
+        strict = [(a, b) for a in anc for b in anc if a < b]
+        for pos in ("first", "middle", "last"):
+            a, b = strict[{"first": 0, "middle": len(strict) // 2, "last": -1}[pos]]
+            bad = sorted(recs[::3] + [[b[0], b[1], a[0], a[1]]], key=lambda r: (r[0], r[1]))
+            yield "hiclib", {"bins": bins, "recs": bad, "chunksizes": [1, 2, 5, len(bad) + 1], "via": [("create", 2)] if pos == "middle" else [],
+                             "kind": f"hic-lower:{label}"}
+        yield "hiclib", {"bins": bins, "recs": [[strict[-1][1][0], strict[-1][1][1], strict[-1][0][0], strict[-1][0][1]]], "chunksizes": [1, 2],
+                         "kind": f"hic-lower:{label}"}
+        # an id heading two runs of the first column
+        if nch >= 2:
+            r0 = [r for r in recs if r[0] == 0][:3]
+            r1 = [r for r in recs if r[0] == nch - 1][:2]
+            for bad in (r0[:1] + r1 + r0[1:], r1[:1] + r0 + r1[1:], r0[:2] + r1[:1] + r0[2:] + r1[1:]):
+                yield "hiclib", {"bins": bins, "recs": bad, "chunksizes": [1, 2, len(bad) + 1], "via": [("cli", 2)], "kind": f"hic-unsorted:{label}"}
+    # seeded small files (duplicates, few records): EVERY chunksize
+    for k in range(120 if thorough else 36):
+        label, bins = tabs[k % len(tabs)] if k % 4 else ("random", gen.random_segmentation(rng, rng.randint(1, 4), 12 if thorough else 8))
+        recs = _hic_random(rng, bins, rng.randint(1, 8))
+        css = list(range(1, len(recs) + 2))
+        via = [(rng.choice(["create", "cli"]), rng.choice(css))] if k % 3 == 0 else []
+        yield "hiclib", {"bins": bins, "recs": recs, "chunksizes": css, "via": via, "kind": f"hic-small:{label}"}
+        yield "hiclib_chunks", {"bins": bins, "recs": recs, "chunksizes": css, "kind": f"hic-small:{label}"}
+    # seeded larger files
+    for k in range(60 if thorough else 14):
+        bins = gen.random_segmentation(rng, rng.randint(2, 5), 60 if thorough else 30)
+        nrec = rng.randint(30, 400 if thorough else 160)
+        recs = _hic_random(rng, bins, nrec, edge=0.4)
+        css = sorted({1, 2, nrec - 1, nrec, nrec + 1} | {rng.randint(2, nrec) for _ in range(3)})
+        yield "hiclib", {"bins": bins, "recs": recs, "chunksizes": css, "via": [("create", rng.choice(css)), ("cli", rng.choice(css))] if k % 2 == 0 else [],
+                         "kind": "hic-large"}
+        yield "hiclib_chunks", {"bins": bins, "recs": recs, "chunksizes": css, "kind": "hic-large"}
+
+
+def hiclib_rowlabels_cases(tier, rng):
+    """well-formed files, the bin table presented with each non-default row labelling"""
+    for label, bins in tables(tier, rng) + _hic_extra_tables():
+        recs = _hic_pairs(bins)
+        small = _hic_random(rng, bins, 6)
+        for form in HIC_LABEL_FORMS[1:]:
+            yield "hiclib_rowlabels", {"bins": bins, "recs": recs, "chunksizes": [1, 2, 3, 7, len(recs) + 1], "rowlabels": form,
+                                       "via": [("create", 2)] if form in ("reversed", "offset") else [],
+                                       "kind": f"hic-rowlabels-{form}:{label}"}
+            yield "hiclib_rowlabels", {"bins": bins, "recs": small, "chunksizes": list(range(1, len(small) + 2)), "rowlabels": form,
+                                       "kind": f"hic-rowlabels-{form}:{label}"}
+
+
+def hiclib_outside_cases(tier, rng):
+    """files the specification rejects (a cut outside its chromosome) or trims (an id that is not in the table)"""
+    tabs = tables(tier, rng)[:4] + _hic_extra_tables()[:1]
+    for label, bins in tabs:
+        L = _sizes(bins)
+        n = len(L)
+        base = _hic_pairs(bins)[::4]
+        extra = []
+        for c in range(n):
+            for p in (L[c], L[c] + 1, -1):
+                extra.append(("pos", [c, p, n - 1, L[n - 1] - 1] if p >= 0 else [c, p, c, 0]))     # first side outside
+                extra.append(("pos", [0, 0, c, p]))                                                  # second side outside
+        for c in (-1, n, n + 1, -(n + 1), -(n + 2)):
+            extra.append(("id", [0, 0, c, 0]))            # second id not in the table (wraps around / IndexError)
+            extra.append(("id", [c, 0, 0, 0]))            # first id not in the table (never visited)
+        for i, (what, x) in enumerate(extra):
+            for recs in ([x], sorted(base + [x], key=lambda r: (r[0], r[1]))):
+                yield "hiclib_outside", {"bins": bins, "recs": recs, "chunksizes": [1, 2, len(recs) + 1],
+                                         "via": [("create", 1)] if i % 2 == 0 else ([("cli", 2)] if i % 5 == 0 else []),
+                                         "kind": f"hic-outside-{what}:{label}"}
 
 
 def nontrivial(name, case):
@@ -1014,6 +1414,8 @@ def nontrivial(name, case):
         return bool(case.get("rows"))
     if "tables" in case:
         return True
+    if "recs" in case:
+        return len(case["bins"]) >= 2 and bool(case["recs"])
     if len(case.get("bins", [])) < 2:
         return False
     if "batches" in case:
@@ -1034,6 +1436,16 @@ def distribution(name, case):
 # ---------------------------------------------------------------------------------------------
 
 def shrink(name, case):
+    if "recs" in case:      # hiclib: one chunksize, one route, fewer read pairs
+        if len(case["chunksizes"]) > 1 or case.get("via"):
+            for cs in case["chunksizes"]:
+                yield dict(case, chunksizes=[cs], via=[])
+            for v in case.get("via", []):
+                yield dict(case, chunksizes=[v[1]], via=[v])
+        rs = case["recs"]
+        for i in range(len(rs)):
+            yield dict(case, recs=rs[:i] + rs[i + 1:])
+        return
     if len(case.get("trils", [])) > 1:
         for t in case["trils"]:
             yield dict(case, trils=[t])
@@ -1076,6 +1488,21 @@ def escalate(name, case, rng):
         r = run_check(CHECKS[nm], c)
         if r and not classify(nm, c, r, findings):
             return {"check": nm, "case": c, "result": r}
+        return None
+    if name == "hiclib_chunks":
+        # the loop no longer cuts where the proof needs it to: does a read pair get lost, doubled or a pixel split?
+        nrec = len(case["recs"])
+        every = list(range(1, nrec + 2))
+        got = fails("hiclib", dict(case, chunksizes=every, via=[("create", cs) for cs in sorted(set(case["chunksizes"]))[:6]]))
+        if got:
+            return got
+        for label, bins in tables("quick", rng) + _hic_extra_tables():
+            recs = _hic_pairs(bins)
+            for cs0 in range(1, len(recs) + 2, 6):
+                css = list(range(cs0, min(cs0 + 6, len(recs) + 2)))
+                got = fails("hiclib", {"bins": bins, "recs": recs, "chunksizes": css, "via": [("create", css[0])], "kind": "escalation"})
+                if got:
+                    return got
         return None
     if name == "records_unit":
         o = dict(case["opts"], validate=True)
